@@ -217,18 +217,35 @@ theorem cid_learning_server_initial (s : St σ) (p : Pkt) (hl : p.htype = .long)
   simp [mem_setAdd_self]
 
 /-- `packet_isserver` for every LATER datagram (any number of datagrams of any content in between, Retry included):
-    a non-empty DCID that is a learned server CID means "sent by the client"; a learned client CID (not also a server
-    CID) means "sent by the server"; an empty DCID decides nothing and the addresses do. -/
+    a non-empty DCID that is a learned server CID (and not also a client CID) means "sent by the client"; a learned
+    client CID (not also a server CID) means "sent by the server"; a CID both endpoints chose, like an empty DCID,
+    decides nothing and the addresses do (repair of the same-CID defect, /repo fix "a connection ID that both
+    endpoints chose…"). -/
 theorem direction_by_cid (s : St σ) (ds : List Dgram) (D : Bytes) (hne : D ≠ []) (fc : Bool) :
-    (D ∈ s.serverCids → packetIsServer (run P s ds).1 fc D = false) ∧
+    (D ∈ s.serverCids → D ∉ (run P s ds).1.clientCids → packetIsServer (run P s ds).1 fc D = false) ∧
     (D ∈ s.clientCids → D ∉ (run P s ds).1.serverCids → packetIsServer (run P s ds).1 fc D = true) ∧
+    (D ∈ s.clientCids → D ∈ s.serverCids → packetIsServer (run P s ds).1 fc D = !fc) ∧
     (∀ t : St σ, packetIsServer t fc [] = !fc) := by
   have hm := run_cids P s ds
   have hlen : D.length > 0 := by cases D <;> simp_all
-  refine ⟨fun h => ?_, fun h hn => ?_, fun t => ?_⟩
-  · simp [packetIsServer, hlen, hm.2 D h]
+  refine ⟨fun h hn => ?_, fun h hn => ?_, fun hc hs => ?_, fun t => ?_⟩
+  · simp [packetIsServer, hlen, hm.2 D h, hn]
   · simp [packetIsServer, hlen, hm.1 D h, hn]
+  · cases fc <;> simp [packetIsServer, hm.1 D hc, hm.2 D hs]
   · cases fc <;> simp [packetIsServer]
+
+/-- the rule as it was before the repair: a CID in both sets always read as "sent by the client" -/
+def Legacy.packetIsServer (s : St σ) (fromClientAddr : Bool) (dcid : Bytes) : Bool :=
+  if dcid.length > 0 ∧ dcid ∈ s.serverCids then false
+  else if dcid.length > 0 ∧ dcid ∈ s.clientCids then true
+  else if fromClientAddr then false
+  else true
+
+/-- witness: both endpoints chose the CID `07`; a datagram from the SERVER's address addressed to `07` was attributed
+    to the client by the old rule and is attributed to the server now -/
+theorem legacy_same_cid_misdirects (s : St σ) (hc : [7] ∈ s.clientCids) (hs : [7] ∈ s.serverCids) :
+    Legacy.packetIsServer s false [7] = false ∧ packetIsServer s false [7] = true := by
+  simp [Legacy.packetIsServer, packetIsServer, hc, hs]
 
 theorem handleFrames_ncid (s s' : St σ) (p : Pkt) (fs : List Frame.Parsed) (h : handleFrames P s p fs = (s', none))
     (l sq r cl : Nat) (cid tok : Bytes) (hf : Frame.Parsed.newConnectionId l sq r cl cid tok ∈ fs) :
@@ -263,12 +280,12 @@ theorem handleFrames_ncid (s s' : St σ) (p : Pkt) (fs : List Frame.Parsed) (h :
 theorem new_connection_id_direction (s s' : St σ) (p : Pkt) (fs : List Frame.Parsed)
     (h : handleFrames P s p fs = (s', none)) (l sq r cl : Nat) (cid tok : Bytes)
     (hf : Frame.Parsed.newConnectionId l sq r cl cid tok ∈ fs) (hne : cid ≠ []) (ds : List Dgram) (fc : Bool) :
-    (p.isServer = true → packetIsServer (run P s' ds).1 fc cid = false) ∧
+    (p.isServer = true → cid ∉ (run P s' ds).1.clientCids → packetIsServer (run P s' ds).1 fc cid = false) ∧
     (p.isServer = false → cid ∉ (run P s' ds).1.serverCids → packetIsServer (run P s' ds).1 fc cid = true) := by
   have hin := handleFrames_ncid P s s' p fs h l sq r cl cid tok hf
   obtain ⟨d1, d2, _⟩ := direction_by_cid P s' ds cid hne fc
   constructor
-  · intro hs; rw [hs] at hin; exact d1 hin
+  · intro hs hn; rw [hs] at hin; exact d1 hin hn
   · intro hs hn; rw [hs] at hin; exact d2 hin hn
 
 /-! ### C02: Retry -/
